@@ -197,4 +197,8 @@ def check(prog: Program, rep):
     from rules.values import data_rhs_converted
     data_rhs_converted(prog, rep, "C02.R11", {"kFlowDecomp": ["_encode_flow_decomposition", "_encode_flow_decomposition_with_given_weights"],
                                                "kFlowDecompCycles": ["_encode_flow_decomposition"]})
-
+    from rules.values import python_arithmetic as _pa
+    from sa.pm import AnalysisError as _AE
+    if _pa(prog, rep, "C02.R11", [prog.own_method(c, "is_valid_solution") for c in ['kFlowDecomp', 'kFlowDecompCycles']],
+           "is_valid_solution() reports the model's own optimal solution invalid (5 - 7 = 254 for np.uint8)") < 2:
+        raise _AE("is_valid_solution: the comparison of the flow values with the load of the routes was not found")
